@@ -58,6 +58,7 @@ def check_cell(acc, a5, path, depth, errors=True):
         except Exception as e:
             acc.violation(f'parent-default-raises:{pk}', f'cell_to_parent({c:#x}) raised {e!r}', case)
     # ---- children
+    held = []        # (b, live list, snapshot): lists handed out earlier must not be changed by later calls
     for b in [None] + list(range(r, min(r + depth, MAXR) + 1)):
         bb = r + 1 if b is None else b
         if bb > MAXR:
@@ -68,6 +69,7 @@ def check_cell(acc, a5, path, depth, errors=True):
             acc.violation(f'children-raises:{pk}:b={b}', f'cell_to_children({c:#x}, {b}) raised {e!r}', case)
             continue
         acc.n['transitions'] += 1
+        held.append((b, kids, list(kids)))
         want = [rm.encode(p) for p in rm.descendants(path, bb)]
         if len(kids) != len(set(kids)):
             acc.violation(f'children-repeat:{pk}:b={b}', f'cell_to_children({c:#x}, {b}) repeats a cell', case)
@@ -99,6 +101,28 @@ def check_cell(acc, a5, path, depth, errors=True):
                 acc.violation(f'children-order:{pk}:b={b}', 'numeric id order disagrees with the level order', case)
                 continue
         acc.n['validated'] += 1 + len(want)
+    for b, live, snap in held:
+        if live != snap:
+            acc.violation(f'children-aliased:{pk}:b={b}', f'the list returned by cell_to_children({c:#x}, {b}) was changed in place by a later call', case)
+            break
+    # a caller may do what it likes with a returned list: a second identical call must be unaffected
+    if r >= 0 and r < MAXR:
+        try:
+            first = a5.cell_to_children(c)
+            snap = list(first)
+            other = a5.cell_to_children(rm.encode(path[:-1] + ((path[-1] + 1) % rm.n_children(path[:-1]),))) if len(path) >= 1 else None
+            if first != snap:
+                acc.violation(f'children-aliased:{pk}:sibling', f'the list returned by cell_to_children({c:#x}) was overwritten by the same call on a sibling', case)
+            first.reverse()
+            first.append(0)
+            again = a5.cell_to_children(c)
+            acc.n['transitions'] += 2
+            if again != snap:
+                acc.violation(f'children-cached:{pk}', f'after the caller modified the list returned by cell_to_children({c:#x}), the same call returns a different list', case)
+            else:
+                acc.n['validated'] += 2
+        except Exception as e:
+            acc.violation(f'children-repeat-raises:{pk}', f'repeated cell_to_children({c:#x}) raised {e!r}', case)
     # ---- out-of-order requests raise
     if errors:
         for a in sorted({r + 1, r + 2, MAXR} - set(range(-1, r + 1))):
